@@ -70,11 +70,11 @@ def run(ctx):
 
     families = []
     m1 = gen("Delta_mc.cfg", defs(P2, 3, 3, "tree", True))
-    families.append(("core", m1.printed("SCRIPT"), ctx.pick(80, 400), 3))
+    families.append(("core", m1.printed("SCRIPT"), ctx.pick(60, 400), 3))
     g = gen("Delta_fallback.cfg", defs(P2, 2, 3, "atomic", True))
-    families.append(("fallback", g.printed("SCRIPT"), ctx.pick(30, 200), 3))
+    families.append(("fallback", g.printed("SCRIPT"), ctx.pick(20, 200), 3))
     g = gen("Delta_ignore.cfg", defs(PIG3 if T else PIG, 3, ctx.pick(2, 3), "tree", True))
-    families.append(("ignore", g.printed("SCRIPT"), ctx.pick(20, 100), ctx.pick(2, 3)))
+    families.append(("ignore", g.printed("SCRIPT"), ctx.pick(15, 100), ctx.pick(2, 3)))
     if T:
         m1 = ctx.model_check("Delta", "Delta_mc.cfg", timeout=14400, defines=defs(P2, 4, 3, "tree", False))
         ctx.model_check("Delta", "Delta_mc.cfg", timeout=14400, defines=defs(P3, 4, 3, "atomic", False))
